@@ -23,6 +23,9 @@ EXTENDS Naturals, TLC
 CONSTANTS MaxBytes,          \* bound on bytes written per direction
           Cuts,              \* subset of {"origin", "transit"}: where the active path may be cut (alternative exists)
           OriginErrorFatal,  \* TRUE: a send attempt in the origin's re-route window aborts the connection
+          AcceptorCloseKillsSocket, \* FALSE = the code as it is: an accepted stream shares the LISTENER's socket with its sibling
+                             \* streams, and the acceptor giving up one of them (its dialler vanished) touches only that
+                             \* connection; TRUE = documented counter-example: it cancels the shared socket
           ForwarderWaitsOnNode, \* FALSE = the code as it is: a forwarder waiting to hand a datagram to a link's writer is released
                              \* when that link's session ends; TRUE = documented counter-example: it waits for the NODE's
                              \* context, so the upstream session of a transit node is wedged for ever by a congested link that is cut
@@ -89,6 +92,15 @@ CutStalled ==
   /\ path' = IF ForwarderWaitsOnNode THEN "wedged" ELSE "transit_window"
   /\ UNCHANGED <<written, avail, read, wClosed, finAvail, rEOF, rErr, conn, cutsLeft, appClosed, notices>>
 
+\* Environment: ANOTHER stream accepted on the same listener loses its dialler uncleanly (socket gone, nothing said);
+\* the acceptor notices ('service unknown') and gives that connection up.  "sibling" \in Cuts enables it.  This
+\* stream must not notice.
+SiblingTeardown ==
+  /\ conn = "up" /\ "sibling" \in cutsLeft
+  /\ cutsLeft' = cutsLeft \ {"sibling"}
+  /\ conn' = IF AcceptorCloseKillsSocket THEN "aborted" ELSE conn
+  /\ UNCHANGED <<written, avail, read, wClosed, finAvail, rEOF, rErr, path, appClosed, notices>>
+
 \* a send attempt (data, ack or keep-alive) during the origin's window gets a synchronous error
 SendError ==
   /\ conn = "up" /\ path = "origin_window" /\ OriginErrorFatal
@@ -139,7 +151,7 @@ ReadError(d) ==
 
 Progress == CutStalled \/ (\E d \in Dirs : Transmit(d) \/ EOF(d) \/ ReadError(d) \/ (\E k \in 1..MaxBytes : Read(d, k))) \/ Rerouted
 Next == \/ \E d \in Dirs : (\E k \in 1..MaxBytes : Write(d, k) \/ Read(d, k)) \/ CloseWrite(d) \/ Transmit(d) \/ EOF(d) \/ ReadError(d) \/ Notice(d) \/ DeadlineExpires(d)
-        \/ (\E w \in {"origin", "transit"} : Cut(w)) \/ SendError \/ Rerouted \/ Lost \/ Stall \/ CutStalled
+        \/ (\E w \in {"origin", "transit"} : Cut(w)) \/ SendError \/ Rerouted \/ Lost \/ Stall \/ CutStalled \/ SiblingTeardown
 
 Spec == Init /\ [][Next]_vars /\ WF_vars(Progress)
 
